@@ -18,7 +18,7 @@ type DocCfg struct {
 	TextPool     []string
 }
 
-var DefaultNames = []string{"a", "b", "c", "d", "item", "x-1", "n.m", "child", "text", "self", "comment", "node", "attribute", "a"}
+var DefaultNames = []string{"a", "b", "c", "d", "item", "x-1", "n.m", "child", "text", "self", "comment", "node", "attribute", "a", "div", "or", "mod", "and"}
 var DefaultTexts = []string{"1", "2", "10", "9", "-3", "1.5", "2.25", " 7 ", "0", "abc", "", "1e3", "NaN", "Infinity", "0x10", "+1", "é", "𝄞x", "3", "b", " ", "a b", "-0", ".5", "5.", "007", "12345678901234567890", "\u00a012", "3\u2003", "\u00854", "1\u00a0"}
 var NumericTexts = []string{"1", "2", "10", "9", "-3", "1.5", "2.25", "0", "3", "4", "-0.5", "100", "0.125", "7", "\u00a012", " 8 ", "\t6\n"}
 // numbers too large for a double: number() is +-Infinity (IEEE round to nearest), not NaN
@@ -35,7 +35,7 @@ func init() {
 
 var UriPool = []string{"urn:a", "urn:b", "http://x/y"}
 var LangPool = []string{"en", "en-GB", "en-US", "EN", "de", "zh-TW", "zh", "", "fr-CA-x-foo", "e", "en-", "zh-Hant", "zh-Hant-TW", "en-GB-oxendict", "fr-CA"}
-var AttrNames = []string{"id", "k", "a", "x-1", "n", "attribute", "text"}
+var AttrNames = []string{"id", "k", "a", "x-1", "n", "attribute", "text", "div", "or"}
 
 func DefaultDocCfg() DocCfg {
 	return DocCfg{MaxNodes: 24, MaxDepth: 4, MaxKids: 4, Namespaces: true, TopMisc: true, Lang: false,
